@@ -145,9 +145,21 @@ SliceG ==
   \cup {Src("string", <<ValB(<<V("len_char_min", p[1], "expr"), V("len_char_max", p[2], "expr")>>)>>, AllFeats) : p \in Pos}
   \cup UNION {{Src(fam, ValOf(fam, vk) \o <<DerB(<<"Debug", "Default">>), DflB(x)>>, AllFeats) : vk \in VKinds(fam) \ {"finite"}, x \in {"valid", "invalid"}} : fam \in Families}
 
+\* ---- slice K: const_fn / default / custom error / generics across the non-string families (C15 builds these in a #![no_std] crate)
+SliceK ==
+  UNION {{Src(fam, ValOf(fam, vk) \o <<DerB(AsSeq(D))>> \o dfl \o cf, AllFeats) :
+            vk \in VKinds(fam), dfl \in {<<>>, <<DflB("valid")>>}, cf \in {<<>>, <<Blk("const_fn")>>},
+            D \in {{"Debug"}, {"Debug", "Clone", "Copy", "PartialEq", "PartialOrd"}, {"Debug", "FromStr", "Display"},
+                   {"Debug", "TryFrom", "Into", "AsRef", "Deref", "Borrow"}, {"Serialize", "Deserialize"}, {"Debug", "Default"},
+                   {"Debug", "Arbitrary"}, {"Debug", "Clone", "PartialEq", "Eq", "PartialOrd", "Ord", "Hash"}}}
+         : fam \in {"int", "float"}}
+  \cup {[Src("any", vb \o <<DerB(tr)>>, AllFeats) EXCEPT !.tparams = <<"T">>, !.ty = "Vec<T>"] :
+          vb \in {<<>>, ValOf("any", "std"), ValOf("any", "custom")},
+          tr \in {<<"Debug", "Clone", "PartialEq">>, <<"Serialize", "Deserialize">>, <<"Debug", "AsRef", "Deref", "Borrow", "TryFrom">>, <<"Debug", "IntoIterator">>, <<"Debug", "Arbitrary">>}}
+
 IsG(src) == src \in SliceG
 
-SrcSet == SliceG \cup SliceT \cup SliceB \cup SliceS \cup SliceF \cup SliceN \cup SliceM \cup SliceV \cup SliceR
+SrcSet == SliceG \cup SliceK \cup SliceT \cup SliceB \cup SliceS \cup SliceF \cup SliceN \cup SliceM \cup SliceV \cup SliceR
 MCSrcSeq == SetToSeq(SrcSet)
 
 -----------------------------------------------------------------------------
